@@ -15,7 +15,7 @@ import (
 
 // hangTimeout: how long one sequential operation on a mock may take before it
 // counts as blocked forever (they normally take microseconds).
-var hangTimeout = 5 * time.Second
+var hangTimeout = 2 * time.Second
 
 // ---- histories printed by TLC from spec/MockSeq.tla -----------------------
 
@@ -439,7 +439,7 @@ func runSeqReplay(job *SeqJob) *SeqResult {
 				mu.Unlock()
 			case <-time.After(hangTimeout):
 				e := h.H[step]
-				p := map[string]string{"call": "C03", "calls": "C04", "reset": "C08", "resetall": "C08"}[e.Op]
+				p := map[string]string{"call": "C03,C04", "calls": "C04", "reset": "C08", "resetall": "C08"}[e.Op]
 				for _, prev := range h.H[:step+1] {
 					if prev.Op == "call" && prev.Mode[0] == "nil" {
 						p += ",C07"
@@ -452,8 +452,8 @@ func runSeqReplay(job *SeqJob) *SeqResult {
 				break wait
 			}
 		}
-		if hung >= 3 {
-			break
+		if hung >= 1 {
+			break // the mock blocks: one witness per (mock, mapping) is enough, every further one costs a timeout
 		}
 	}
 	return res
@@ -539,9 +539,11 @@ func runSeqRecord(job *SeqJob) *SeqResult {
 		abs = append(abs, a)
 	}
 	sort.Strings(abs)
+	var wmu sync.Mutex
 	for t := 0; t < job.Traces; t++ {
 		s := newSession(e, job.Map)
-		for i := 0; i < job.Len; i++ {
+		hungTrace := false
+		for i := 0; i < job.Len && !hungTrace; i++ {
 			am := abs[rng.Intn(len(abs))]
 			op, mode := "call", []string{"-"}
 			switch k := rng.Intn(10); {
@@ -560,7 +562,23 @@ func runSeqRecord(job *SeqJob) *SeqResult {
 			default:
 				op = "calls"
 			}
-			o := s.do(op, am, mode)
+			// an operation that never returns must not hang the recorder (the replay
+			// pipeline reports it); the trace is cut there
+			var o stepObs
+			doneCh := make(chan struct{})
+			go func() {
+				o = s.do(op, am, mode)
+				close(doneCh)
+			}()
+			select {
+			case <-doneCh:
+			case <-time.After(hangTimeout):
+				hungTrace = true
+			}
+			if hungTrace {
+				break
+			}
+			wmu.Lock()
 			ev := TraceEvent{Trace: t, Mock: job.Mock, Stub: e.Stub, Resets: e.Resets, NilRec: res.NilRec, First: i == 0,
 				Op: op, M: am, Mode: mode, Snap: []string{}, Stable: s.staleChanged() == "", ResOK: true, MsgOK: true, SameG: true,
 				Delegated: s.absMap(nil), Seen: s.absMap(nil), Seen2: s.absMap(nil)}
@@ -602,6 +620,10 @@ func runSeqRecord(job *SeqJob) *SeqResult {
 			ev.After = s.absMap(o.after)
 			enc.Encode(&ev)
 			res.Events++
+			wmu.Unlock()
+		}
+		if hungTrace {
+			break
 		}
 		res.Traces++
 	}
